@@ -3,6 +3,7 @@ Real code: protocol/__init__.py (error_handler, handle_state_step, the three gen
 'expected' filter as the transports apply it, IpPairing.add_pairing/remove_pairing, BlePairing.add_pairing/remove_pairing."""
 import asyncio
 
+import aiohomekit.controller.ble.client as real_client
 import aiohomekit.controller.ble.pairing as real_blep
 import aiohomekit.controller.ip.pairing as real_ipp
 import aiohomekit.exceptions as X
@@ -17,6 +18,7 @@ from .refs import byte, rope, tlv8_encode
 
 PROP = "C04"
 TLVM, PROTO, IPP, BLEP = "aiohomekit.protocol.tlv", "aiohomekit.protocol", "aiohomekit.controller.ip.pairing", "aiohomekit.controller.ble.pairing"
+CLIENT = "aiohomekit.controller.ble.client"
 T_STATE, T_ERROR, T_PUBKEY, T_SALT, T_PROOF, T_ENC, T_ID, T_SIG = 6, 7, 3, 2, 4, 5, 1, 10
 
 
@@ -32,12 +34,13 @@ def copies(mutate=None):
     m.proto = hap.patch_protocol_copy(load(PROTO, deps={TLVM: m.tlv}, src_transform=mutate.get(PROTO)))
     m.ipp = load(IPP, deps={TLVM: m.tlv, PROTO: m.proto}, src_transform=mutate.get(IPP))
     m.blep = load(BLEP, deps={TLVM: m.tlv, PROTO: m.proto}, src_transform=mutate.get(BLEP))
+    m.client = load(CLIENT, deps={TLVM: m.tlv}, src_transform=mutate.get(CLIENT))
     return m
 
 
 def reals():
     m = Mods()
-    m.tlv, m.proto, m.ipp, m.blep = real_tlv, real_proto, real_ipp, real_blep
+    m.tlv, m.proto, m.ipp, m.blep, m.client = real_tlv, real_proto, real_ipp, real_blep, real_client
     return m
 
 
@@ -82,8 +85,33 @@ def deliver(ex, be, M, gen, fields, expected, transport):
     body = body if be.sym else bytes(body.concrete())
     if transport == "filtered":  # IP post_tlv / CoAP: TLV.decode_bytes(body, expected=expected)
         msg = M.tlv.TLV.decode_bytes(body, expected=expected)
-    else:  # BLE _pairing_char_write: dict(TLV.decode_bytes(buffer))
+    elif transport == "unfiltered":  # BLE _pairing_char_write, reply in one piece: dict(TLV.decode_bytes(buffer))
         msg = dict(M.tlv.TLV.decode_bytes(body))
+    else:
+        # BLE: the accessory delivers the reply as FragmentData + FragmentLast, split at an arbitrary position
+        # (including a zero-length first or last fragment); the real _pairing_char_write reassembles it
+        r = as_rope(body)
+        n = r.length()
+        k = ex.fresh_int("split", 0, 600)
+        ex.assume(k <= n)
+        pieces = [tlv8_encode([(0x0C, r.slice(0, k))]), tlv8_encode([(0x0D, r.slice(k, n))])]
+        pieces = [p if be.sym else bytes(p.concrete()) for p in pieces]
+        writes = []
+
+        async def char_write(client, ek, dk, handle, iid, data):
+            writes.append(data)
+            return pieces[len(writes) - 1]
+
+        class Client:
+            address = "aa:bb"
+
+        saved = M.client.char_write
+        M.client.char_write = char_write
+        try:
+            msg = drive(M.client._pairing_char_write(Client(), "handle", 1, [(T_STATE, b"\x01")]))
+        finally:
+            M.client.char_write = saved
+        ex.tag("fragmented")
     return gen.send(msg)
 
 
@@ -166,6 +194,33 @@ def step_unit(M, step, transport):
                 fields, sk, sw, ek, code = reply_fields(ex, be, 4, [])
                 out, val, exc = run_gen(lambda: deliver(ex, be, M, gen, fields, expected, transport))
         judge(ex, out, exc, sk, sw, ek, code, step)
+        return ex.observe([out, type(exc).__name__ if exc is not None else None])
+    return h
+
+
+def resume_unit(M, transport):
+    """pair-verify M2 on the resume path: a reply with valid resume items still must not hide an error or a wrong state"""
+    def h(ex):
+        from .c01 import Accessory, T_METHOD, T_SESSION
+        be = hap.backend(ex, M.proto)
+        prev = Accessory(be, eph="eP")
+        prev.shared = be.dh("eP", be.eph_pub("eQ"))
+        old_sid = prev.key(b"Pair-Verify-ResumeSessionID-Salt", b"Pair-Verify-ResumeSessionID-Info", 8)
+
+        def derive0(salt, info, length=32):
+            return M.proto.hkdf_derive(be.b(prev.shared), salt, info, length=length) if not be.sym else be.hkdf(prev.shared, salt, info, length)
+
+        gen = M.proto.get_session_keys(hap.pairing_data(), be.b(old_sid), derive0)
+        req, expected = gen.send(None)
+        ios_pub = dict(req)[T_PUBKEY]
+        new_sid = b"NEWSID01"
+        tag = be.encrypt(be.hkdf(prev.shared, hap.cat(be, ios_pub, new_sid), b"Pair-Resume-Response-Info"), b"PR-Msg02", b"")
+        fields, sk, sw, ek, code = reply_fields(ex, be, 2, [])
+        fields = fields + [(T_METHOD, b"\x06"), (T_SESSION, new_sid), (T_ENC, tag)]
+        out, val, exc = run_gen(lambda: deliver(ex, be, M, gen, fields, expected, transport))
+        judge(ex, out, exc, sk, sw, ek, code, "verify-M2(resume)")
+        if not (ek != "absent" or sw):
+            ex.require(out == "returned", "verify-M2(resume): a clean resume reply is accepted")
         return ex.observe([out, type(exc).__name__ if exc is not None else None])
     return h
 
@@ -261,12 +316,18 @@ def build(tier, mutate=None):
     C = copies(mutate)
     R = reals()
     units = []
+    names = {"filtered": "ip-coap(expected filter)", "unfiltered": "ble(one piece)", "fragmented": "ble(two fragments, any split)"}
     for step in STEPS:
-        for transport in ("filtered", "unfiltered"):
-            units.append(Unit("%s/%s" % (step, "ip-coap(expected filter)" if transport == "filtered" else "ble(no filter)"),
+        for transport in ("filtered", "unfiltered", "fragmented"):
+            units.append(Unit("%s/%s" % (step, names[transport]),
                               step_unit(C, step, transport), step_unit(R, step, transport), split=True,
-                              bounds={"state": "absent or any byte 0..255", "error": "absent, any byte 0..255, empty, two bytes", "other_fields": "every subset"},
-                              regions=["error-or-wrong-state", "clean-reply", "error-without-state"]))
+                              bounds={"state": "absent or any byte 0..255", "error": "absent, any byte 0..255, empty, two bytes", "other_fields": "every subset",
+                                      "fragment split": "0..len(reply) (symbolic)" if transport == "fragmented" else "-"},
+                              regions=["error-or-wrong-state", "clean-reply", "error-without-state"] + (["fragmented"] if transport == "fragmented" else [])))
+    for transport in ("unfiltered", "fragmented"):
+        units.append(Unit("verify-M2-resume/%s" % names[transport], resume_unit(C, transport), resume_unit(R, transport), split=True,
+                          bounds={"state": "absent or any byte", "error": "absent, any byte, empty, two bytes", "resume items": "valid"},
+                          regions=["error-or-wrong-state", "clean-reply"]))
     for which in ("ip", "ble"):
         for op in ("add", "remove"):
             units.append(Unit("%s/%s-pairing" % (which, op), mgmt_unit(C, which, op), mgmt_unit(R, which, op),
